@@ -59,13 +59,37 @@ def register(w):
             raise PyRaise("AnyException", "setattr refused by the target")
         if "PSp" in ex.ghost:
             ex.assumptions_used.add("setattr of the saved original onto a target recorded in _PATCH_STATE (its patch was installed successfully) does not raise")
+        if not isinstance(v, (VRef, VNone)):
+            raise OutOfSubset(f"setattr value {v!r}")
         vt = H.NONEVAL if isinstance(v, VNone) else v.term
         ex.ghost["D"] = z3.Store(H.D(ex), k, vt)
         return NONE
 
+    def b_vars(ex, args, kw):
+        o = args[0]
+        if not (isinstance(o, VRef) and o.sort == OBJ):
+            raise OutOfSubset(f"vars({o!r})")
+        return VPy(obj=("owndict", o))
+
+    def contains_hook(ex, item, cont):
+        if isinstance(cont, VPy) and isinstance(cont.obj, tuple) and cont.obj and cont.obj[0] == "owndict" and isinstance(item, VStr):
+            return z3.Select(H.D(ex), H.key(cont.obj[1], item)) != H.ABSENT
+        return None
+    w.contains_hooks.append(contains_hook)
+
     from pyvc.world import BUILTINS
+    BUILTINS["vars"] = VFunc("builtin", "vars", impl=b_vars)
     BUILTINS["setattr"] = VFunc("builtin", "setattr", impl=b_setattr)
-    BUILTINS["delattr"] = VFunc("builtin", "delattr", impl=H.b_delattr)
+    def b_delattr(ex, args, kw):
+        obj, attr = args
+        if "PSp" in ex.ghost and isinstance(obj, VRef) and obj.sort == OBJ:
+            k = H.key(obj, attr)
+            # a key recorded in _PATCH_STATE had its patch installed with setattr, and nested bodies
+            # restore what they change: the own entry is still there
+            ex.assume(z3.Implies(z3.Select(ex.ghost["PSp"], k), z3.Select(H.D(ex), k) != H.ABSENT))
+            ex.assumptions_used.add("an attribute recorded in _PATCH_STATE is still an own attribute of its target when it is released (installed by setattr; nested bodies are restoring)")
+        return H.b_delattr(ex, args, kw)
+    BUILTINS["delattr"] = VFunc("builtin", "delattr", impl=b_delattr)
 
     def call_ref(ex, fn, args, kwargs):
         if fn.sort == FN:
@@ -203,7 +227,8 @@ def register_monkey(w):
             ex.ghost["PSp"] = z3.Const("PSp0", z3.ArraySort(H.Key, z3.BoolSort()))
             ex.ghost["PSo"] = z3.Const("PSo0", z3.ArraySort(H.Key, H.Val))
             ex.ghost["PSc"] = z3.Const("PSc0", z3.ArraySort(H.Key, z3.IntSort()))
-            for nm in ("PSp", "PSo", "PSc"):
+            ex.ghost["PSw"] = z3.Const("PSw0", z3.ArraySort(H.Key, z3.BoolSort()))
+            for nm in ("PSp", "PSo", "PSc", "PSw"):
                 ex.ghost[nm + "0"] = ex.ghost[nm]
         return ex.ghost["PSp"], ex.ghost["PSo"], ex.ghost["PSc"]
 
@@ -237,31 +262,57 @@ def register_monkey(w):
         return None
     w.method_hooks.append(method_hook)
 
-    def getitem_hook(ex, base, idx):
+    def ps_field(ex, f):
+        """ghost array for one field of the per-key state records (count: Int, anything else: object)"""
+        PS(ex)
+        std = {"count": "PSc", "orig": "PSo", "owned": "PSw"}
+        nm = std.get(f, "PSx_" + f)
+        if nm not in ex.ghost:
+            ex.ghost[nm] = z3.Const(nm + "0", z3.ArraySort(H.Key, H.Val))
+            ex.ghost[nm + "0"] = ex.ghost[nm]
+        return nm
+
+    def handle_key(base):
         if isinstance(base, StHandle):
-            p, o, c = PS(ex)
+            return base.key
+        return getattr(base, "handle_key", None)
+
+    def getitem_hook(ex, base, idx):
+        k = handle_key(base)
+        if k is not None:
             f = z3.simplify(idx.term).as_string()
+            nm = ps_field(ex, f)
             if f == "count":
-                return VInt(z3.Select(c, base.key))
-            if f == "orig":
-                return VRef(VAL, z3.Select(o, base.key))
+                return VInt(z3.Select(ex.ghost[nm], k))
+            if ex.ghost[nm].sort().range() == z3.BoolSort():
+                return VBool(z3.Select(ex.ghost[nm], k))
+            return VRef(VAL, z3.Select(ex.ghost[nm], k))
         return None
     w.getitem_hooks.append(getitem_hook)
 
+    def store_field(ex, k, f, v):
+        nm = ps_field(ex, f)
+        if f == "count" or (isinstance(v, VBool) and ex.ghost[nm].sort().range() == z3.BoolSort()):
+            ex.ghost[nm] = z3.Store(ex.ghost[nm], k, v.term)
+        else:
+            if not isinstance(v, (VRef, VNone)):
+                raise OutOfSubset(f"_PATCH_STATE record field {f} = {v!r}")
+            ex.ghost[nm] = z3.Store(ex.ghost[nm], k, H.NONEVAL if isinstance(v, VNone) else v.term)
+
     def setitem_hook(ex, base, idx, v):
-        p, o, c = PS(ex)
-        if isinstance(base, StHandle):
-            f = z3.simplify(idx.term).as_string()
-            if f == "count":
-                ex.ghost["PSc"] = z3.Store(c, base.key, v.term)
-                return True
-            return False
+        PS(ex)
+        k = handle_key(base)
+        if k is not None:
+            store_field(ex, k, z3.simplify(idx.term).as_string(), v)
+            return True
         if base is PATCH_STATE:
             k = key_of(ex, idx)
-            d = {z3.simplify(kk.term).as_string(): vv for kk, vv in v.entries}
-            ex.ghost["PSp"] = z3.Store(p, k, z3.BoolVal(True))
-            ex.ghost["PSo"] = z3.Store(o, k, d["orig"].term)
-            ex.ghost["PSc"] = z3.Store(c, k, d["count"].term)
+            if not isinstance(v, VDict):
+                raise OutOfSubset(f"_PATCH_STATE[key] = {v!r}")
+            ex.ghost["PSp"] = z3.Store(ex.ghost["PSp"], k, z3.BoolVal(True))
+            for kk, vv in v.entries:
+                store_field(ex, k, z3.simplify(kk.term).as_string(), vv)
+            v.handle_key = k  # the stored dict object and the local name alias the same record
             return True
         return False
     w.setitem_hooks.append(setitem_hook)
@@ -315,10 +366,13 @@ def register_monkey(w):
         p0, o0, c0 = ex.ghost["PSp0"], ex.ghost["PSo0"], ex.ghost["PSc0"]
         sel = z3.Select
         was = sel(p0, k0)
+        ow, ow0 = ex.ghost["PSw"], ex.ghost["PSw0"]
         return z3.And(
-            z3.Implies(was, z3.And(sel(p, k0), sel(o, k0) == sel(o0, k0), sel(c, k0) == sel(c0, k0) + n_occ, sel(D, k0) == sel(D0, k0))),
-            z3.Implies(z3.And(z3.Not(was), n_occ > 0), z3.And(sel(p, k0), sel(o, k0) == Rk(sel(D0, k0), k0), sel(o, k0) != H.ABSENT, sel(c, k0) == n_occ)),
-            z3.Implies(z3.And(z3.Not(was), n_occ == 0), z3.And(z3.Not(sel(p, k0)), Rk(sel(D, k0), k0) == Rk(sel(D0, k0), k0))),
+            z3.Implies(was, z3.And(sel(p, k0), sel(o, k0) == sel(o0, k0), sel(ow, k0) == sel(ow0, k0), sel(c, k0) == sel(c0, k0) + n_occ, sel(D, k0) == sel(D0, k0))),
+            z3.Implies(z3.And(z3.Not(was), n_occ > 0), z3.And(
+                sel(p, k0), sel(o, k0) == Rk(sel(D0, k0), k0), sel(o, k0) != H.ABSENT, sel(c, k0) == n_occ,
+                sel(ow, k0) == (sel(D0, k0) != H.ABSENT), sel(D, k0) != H.ABSENT)),
+            z3.Implies(z3.And(z3.Not(was), n_occ == 0), z3.And(z3.Not(sel(p, k0)), sel(D, k0) == sel(D0, k0))),
         )
 
     def inv_acquire(lc):
@@ -340,7 +394,7 @@ def register_monkey(w):
 
     def cm_body(ex, cx, value, extra):
         k0 = ex.ghost["k0"]
-        for nm in ("D", "PSp", "PSo", "PSc"):
+        for nm in ("D", "PSp", "PSo", "PSc", "PSw"):
             old = ex.ghost[nm]
             new = ex.fresh_const(nm + "_after_body", old.sort())
             ex.assume(z3.Select(new, k0) == z3.Select(old, k0))
@@ -356,11 +410,14 @@ def register_monkey(w):
         sel = z3.Select
         same_ps = z3.And(sel(ex.ghost["PSp"], k0) == sel(ex.ghost["PSp0"], k0),
                          z3.Implies(sel(ex.ghost["PSp0"], k0), z3.And(sel(ex.ghost["PSo"], k0) == sel(ex.ghost["PSo0"], k0), sel(ex.ghost["PSc"], k0) == sel(ex.ghost["PSc0"], k0))))
-        return z3.And(Rk(sel(ex.ghost["D"], k0), k0) == Rk(sel(ex.ghost["D0"], k0), k0), same_ps)
+        # the own dictionary of every object is EXACTLY as before (so any attribute resolution, with
+        # any inheritance between patched objects, gives the same objects as before)
+        return z3.And(sel(ex.ghost["D"], k0) == sel(ex.ghost["D0"], k0), same_ps)
 
     def gh(names):
         def f(ex):
-            for nm in names:
+            extra = [n for n in ex.ghost if n.startswith("PSx_") and not n.endswith("0")] if "PSp" in names else []
+            for nm in list(names) + extra:
                 ex.ghost[nm] = ex.fresh_const(nm, ex.ghost[nm].sort())
         return f
 
@@ -369,13 +426,13 @@ def register_monkey(w):
         local_types={"touched": TOUCHED},
         ghost_init=ghost_init, cm_body=cm_body,
         loops={
-            0: LoopSpec(invariant=inv_acquire, label="acquire-specs", ghost_havoc=gh(["D", "PSp", "PSo", "PSc", "Occ"])),
-            1: LoopSpec(invariant=inv_acquire, label="acquire-targets", ghost_update=ghost_acquire_inner, ghost_havoc=gh(["D", "PSp", "PSo", "PSc", "Occ"])),
-            2: LoopSpec(invariant=inv_restore, label="restore", ghost_havoc=gh(["D", "PSp", "PSo", "PSc"])),
+            0: LoopSpec(invariant=inv_acquire, label="acquire-specs", ghost_havoc=gh(["D", "PSp", "PSo", "PSc", "PSw", "Occ"])),
+            1: LoopSpec(invariant=inv_acquire, label="acquire-targets", ghost_update=ghost_acquire_inner, ghost_havoc=gh(["D", "PSp", "PSo", "PSc", "PSw", "Occ"])),
+            2: LoopSpec(invariant=inv_restore, label="restore", ghost_havoc=gh(["D", "PSp", "PSo", "PSc", "PSw"])),
         },
         ensures=[("attributes_and_patch_state_as_before", post_restored), ("body_exception_propagates", lambda c: z3.BoolVal(not c.extra.get("body_raised")))],
         exc_ensures=[("attributes_and_patch_state_as_before", post_restored)],
-        props=["C13"], witnesses=["D8"],
+        props=["C13"], witnesses=["D8", "D17", "C13_rebinding_between_conversions"],
     ))
 
 
